@@ -15,7 +15,8 @@ RULE = ("cases: (server set with seeds / connection state / certificates, prefer
         "selection and Publish.update_goal on such brokers; and long-lived brokers (same NativeStorageServer objects) queried again "
         "while the clock walks forward across every certificate expiry (one microsecond before / at / after); non-trivial = at "
         "least two candidate servers (the sort decides); distinct = distinct (server ids, seeds, preferred, permitted, storage "
-        "index, instant)")
+        "index, instant); and tahoe.cfg texts with a [grid_managers] section (well-formed, unusable entries only, good + bad, absent) "
+        "taken through config_from_string / from_node_config to a broker")
 META = {
     "title": "Servers are ordered consistently and upload permission is enforced",
     "level_text": ("Theorems in Coq over a model of StorageFarmBroker.get_servers_for_psi (stable sort by (unpreferred, SHA-1(psi ++ "
@@ -310,9 +311,10 @@ def run(ctx):
     ctx.correspondence("get_servers_for_psi-vs-model")
     ctx.correspondence("uploader-candidates-vs-model")
     ctx.correspondence("publish-update_goal-vs-model")
+    ctx.correspondence("grid-manager-config-vs-model")
     cfg = node_config()
     terms, info = [], []
-    for i in range(ctx.n(70, 900)):
+    for i in range(ctx.n(56, 900)):
         order_case(ctx, i, cfg, terms, info)
     for i in range(ctx.n(10, 120)):
         order_case(ctx, i, cfg, terms, info, stream="order-raise")
@@ -322,6 +324,7 @@ def run(ctx):
     uploader(ctx, cfg, terms, info)
     publisher(ctx, cfg, terms, info)
     aging(ctx, cfg, terms, info)
+    gm_config(ctx, terms, info)
     # one evaluation for all three correspondences (loading the SHA-1 development dominates small batches)
     bad = ctx.coq_check(IMPORTS, terms, tag="c32", shard=max(20, (len(terms) + 7) // 8))
     for ix in bad:
@@ -334,6 +337,10 @@ def run(ctx):
             i, cinfo, contacted, out = rec
             ctx.mismatch("upload-candidates-model-vs-impl", "Coq model of the uploader's server selection and Tahoe2ServerSelector differ", case=cinfo,
                          observed={"contacted": [x.decode() for x in contacted], "outcome": out}, correspondence="uploader-candidates-vs-model")
+        elif which == "gmconfig":
+            i, cinfo, result = rec
+            ctx.mismatch("grid-manager-config-model-vs-impl", "Coq model of the [grid_managers] section (an unusable entry refuses the configuration) and "
+                         "StorageClientConfig.from_node_config differ", case=cinfo, observed=result, correspondence="grid-manager-config-vs-model")
         else:
             i, cinfo, result = rec
             ctx.mismatch("update-goal-model-vs-impl", "Coq model of Publish.update_goal and the implementation differ", case=cinfo,
@@ -390,7 +397,7 @@ def configured_preference(ctx):
 
 def uploader(ctx, cfg, terms, info):
     """immutable/upload.py Tahoe2ServerSelector.get_shareholders: which servers does an upload talk to?"""
-    for i in range(ctx.n(30, 400)):
+    for i in range(ctx.n(24, 400)):
         r = ctx.rng("upload", i)
         W = gen_world(r, gm=True if r.random() < 0.8 else False)
         W["psi"] = rbytes(r, 16)
@@ -449,7 +456,7 @@ def upload_step(ctx, sb, W, total, needed, cinfo, terms, info, i, kind="uploader
 
 def publisher(ctx, cfg, terms, info):
     """mutable/publish.py Publish.update_goal on a bare Publish object."""
-    for i in range(ctx.n(40, 600)):
+    for i in range(ctx.n(30, 600)):
         r = ctx.rng("publish", i)
         W = gen_world(r, nmax=8, gm=True if r.random() < 0.8 else False)
         W["psi"] = rbytes(r, 16)
@@ -590,6 +597,115 @@ def aging(ctx, cfg, terms, info, only=None):
             ctx.sample({"aging": describe(W), "times": [x.isoformat() for x in times]})
 
 
+def gm_config(ctx, terms, info, only=None):
+    """tahoe.cfg text -> config_from_string -> StorageClientConfig.from_node_config -> broker.  A [grid_managers] entry
+    that cannot be used is an error; it must never shrink the key list, least of all to the empty list that means
+    "no grid manager configured, every server is permitted"."""
+    from allmydata.client import config_from_string
+    from allmydata.storage_client import StorageClientConfig
+    for i in (range(ctx.n(24, 240)) if only is None else [only]):
+        r = ctx.rng("gmconfig", i)
+        W = gen_world(r, nmax=5, gm=True)
+        W["psi"] = rbytes(r, 16)
+        W["preferred"] = ()                    # the configuration text below names no preferred peers
+        scenario = r.choice(["wellformed", "wellformed", "unusable-only", "unusable-only", "unusable-only", "good+bad", "good+bad", "no-section"])
+        good = [c33.key("G%d" % g)[2].decode("ascii") for g in W["keys"]]
+
+        def spoil(text):
+            how = r.choice(["char-lost", "upper-case", "node-id", "private-key", "two-lines", "empty", "garbage"])
+            if how == "char-lost":
+                p = r.randrange(8, len(text))
+                return how, text[:p] + text[p + 1:]
+            if how == "upper-case":
+                return how, r.choice([text.upper(), text[:7] + text[7:].upper()])
+            if how == "node-id":
+                return how, text[len("pub-"):]
+            if how == "private-key":
+                from allmydata.crypto import ed25519
+                return how, ed25519.string_from_signing_key(c33.key("G%d" % W["keys"][0])[0]).decode("ascii")
+            if how == "two-lines":
+                return how, text[:30] + "\n    " + text[30:]
+            if how == "empty":
+                return how, ""
+            return how, r.choice(["yes", "pub-v0-", "pub-v1-" + text[7:], "http://example.com/gm.pub"])
+
+        entries = []                           # (name, value text, grid-manager index or None, note)
+        if scenario == "wellformed":
+            entries = [("gm%d" % n, t, W["keys"][n], "ok") for n, t in enumerate(good)]
+        elif scenario == "unusable-only":
+            for n, t in enumerate(good[:r.choice([1, 1, 2])]):
+                how, bad = spoil(t)
+                entries.append(("gm%d" % n, bad, None, how))
+        elif scenario == "good+bad":
+            entries = [("gm0", good[0], W["keys"][0], "ok")]
+            how, bad = spoil(good[-1])
+            entries.append(("gm1", bad, None, how))
+            if r.random() < 0.5:
+                entries.reverse()
+        text = "[client]\nshares.needed = 1\n"
+        if scenario != "no-section":
+            text += "[grid_managers]\n" + "".join("%s = %s\n" % (n, v) for n, v, _, _ in entries)
+        usable = [g for _, _, g, _ in entries if g is not None]
+        unusable = [note for _, _, g, note in entries if g is None]
+        try:
+            cfg = config_from_string(env.subdir("c32-node"), "tub.port", text)
+            scc = StorageClientConfig.from_node_config(cfg)
+            refused = None
+        except Exception as e:
+            refused = type(e).__name__
+        cinfo = dict(describe(W), stream="gmconfig", index=i, scenario=scenario, config=text, unusable_entries=unusable)
+        W["keys"] = usable                      # the keys in force if the configuration is accepted
+        for s_ in W["servers"]:
+            for c in s_["certs"]:
+                c["static_ok"] = c["static_ok"] and (c33.World.signer_of(W["world"], c["data"], c["sig"]) or (None,))[0] in usable
+                c["garbage"] = False
+        set_time(W, W["now"])
+        ctx.case(("gmconfig", scenario, tuple(unusable), refused is None), kind="gmconfig:" + scenario)
+        ents = T.lst(["(Some %s)" % T.N(g) if g is not None else "None" for _, _, g, _ in entries])
+        if refused is not None:
+            if not unusable:
+                ctx.oracle_fail("grid-manager-config-wellformed-refused", "a well-formed [grid_managers] section is refused with %s" % refused, case=cinfo,
+                                expected="accepted", observed=refused)
+            terms.append("opt_keys_eqb (grid_manager_keys_from_config %s) None" % ents)
+            info.append(("gmconfig", (i, cinfo, "refused:" + refused)))
+            continue
+        idx = dict((s_["id"], k) for k, s_ in enumerate(W["servers"]))
+        with clock(W):
+            sb = build_broker(W, list(range(len(W["servers"]))), cfg, scc=scc)
+            seeds = dict((sid, srv.get_permutation_seed()) for sid, srv in sb.servers.items())
+            enum = [srv.get_serverid() for srv in sb.get_connected_servers()]
+            got = {}
+            for fu in (False, True):
+                got[fu] = [srv.get_serverid() for srv in sb.get_servers_for_psi(W["psi"], for_upload=fu)]
+        nkeys = len(scc.grid_manager_keys)
+        if entries and not usable:
+            # nothing usable is configured although the operator configured a grid manager
+            uncert = [x.decode() for x in got[True]]
+            ctx.oracle_fail("grid-manager-config-fails-open",
+                            "tahoe.cfg has a [grid_managers] section whose %d entr%s unusable (%s); the configuration is accepted with %d grid-manager keys and "
+                            "get_servers_for_psi(for_upload=True) lists %d server(s) -- uploads go to servers no grid manager certified"
+                            % (len(entries), "y is" if len(entries) == 1 else "ies are", ", ".join(unusable), nkeys, len(uncert)),
+                            case=cinfo, expected="configuration refused (or no server permitted)", observed=uncert)
+        else:
+            want, ties = expected_order(W, True, seeds)
+            bad = [x for x in got[True] if usable and not rule_permitted(W, W["servers"][idx[x]])]
+            if bad:
+                ctx.oracle_fail("upload-list-contains-unpermitted-server",
+                                "with [grid_managers] from tahoe.cfg, get_servers_for_psi(for_upload=True) lists %s which holds no valid certificate from a configured grid manager"
+                                % bad[0].decode(), case=cinfo, expected=[x.decode() for x in want], observed=[x.decode() for x in got[True]])
+            elif sorted(got[True]) != sorted(want) or (not ties and got[True] != want):
+                ctx.oracle_fail("server-order-wrong-server-set", "upload list with [grid_managers] from tahoe.cfg differs from the rule", case=cinfo,
+                                expected=[x.decode() for x in want], observed=[x.decode() for x in got[True]])
+        terms.append("opt_keys_eqb (grid_manager_keys_from_config %s) (Some %s)" % (ents, T.lst([T.N(g) for g in usable] if nkeys == len(usable) else [T.N(99)] * nkeys)))
+        info.append(("gmconfig", (i, cinfo, "accepted with %d keys" % nkeys)))
+        spk_ids = {}
+        srvs = [srv_term(W, W["servers"][idx[sid]], idx[sid], seeds[sid], spk_ids) for sid in enum]
+        parts = ["opt_ids_eqb (run_get_servers l psi %s) (Some %s)" % (T.boolean(fu), T.lst([T.N(idx[x]) for x in got[fu]])) for fu in (False, True)]
+        if not (entries and not usable):
+            terms.append("(let l := %s in let psi := %s in %s)" % (T.lst(srvs), T.bytes_(W["psi"]), " && ".join(parts)))
+            info.append(("order", ("gmconfig", i, cinfo, [got[False], got[True]])))
+
+
 def replay(ctx, rec):
     c = rec.get("case") or {}
     stream, i = c.get("stream"), c.get("index")
@@ -597,6 +713,10 @@ def replay(ctx, rec):
         terms, info = [], []
         W = order_case(ctx, i, node_config(), terms, info, stream=stream)
         return {"case": describe(W), "model_vs_impl_disagreements": ctx.coq_check(IMPORTS, terms, tag="c32r")}
+    if stream == "gmconfig":
+        terms, info = [], []
+        gm_config(ctx, terms, info, only=i)
+        return {"config": c.get("config"), "model_vs_impl_disagreements": ctx.coq_check(IMPORTS, terms, tag="c32r")}
     if stream == "aging":
         terms, info = [], []
         aging(ctx, node_config(), terms, info, only=i)
